@@ -54,6 +54,24 @@ func (x *Exec) execCall(fc *frameCtx, st *State, i *ssa.Call) Val {
 
 func (x *Exec) callFunction(fc *frameCtx, st *State, i *ssa.Call, callee *ssa.Function, args []Val) Val {
 	pkg := funcPkgPath(callee)
+	if callee.Name() == "init" && callee.Signature.Recv() == nil && callee.Signature.Params().Len() == 0 {
+		return nil // initialiser of an imported package: cannot reference the importing package's state
+	}
+	if fc.top && fc.con != nil {
+		for k, ac := range fc.con.AtCalls {
+			if ac.Callee != funcKey(callee) && ac.Callee != shortPkg(pkg)+"."+funcKey(callee) {
+				continue
+			}
+			var tvs []TV
+			for j, a := range args {
+				tvs = append(tvs, TV{a, callee.Params[j].Type()})
+			}
+			fc.callArgs = tvs
+			t := x.evalBool(fc, st, ac.Expr, nil)
+			fc.callArgs = nil
+			x.oblige(st, fmt.Sprintf("at-call:%d", k), ac.Callee+": "+ac.Expr.String(), i.Pos(), t, nil)
+		}
+	}
 	if con := x.W.contractFor(callee); con != nil && !con.Inline {
 		return x.applyContract(fc, st, i, callee, con, args)
 	}
@@ -489,10 +507,23 @@ func (x *Exec) execInvoke(fc *frameCtx, st *State, i *ssa.Call) Val {
 	recv := x.operand(fc, cc.Value, nil).(IfaceV)
 	x.safety(st, "nil", i.Pos(), i, tNe(recv.Tag, mkInt(0)))
 	m := cc.Method
+	if recv.Tag.isInt() {
+		if dt, ok := x.W.typeByID[int(recv.Tag.ival.Int64())]; ok {
+			ms := x.W.Prog.MethodSets.MethodSet(dt)
+			if sel := ms.Lookup(m.Pkg(), m.Name()); sel != nil {
+				callee := x.W.Prog.MethodValue(sel)
+				args := []Val{recv.Ref}
+				for k, a := range cc.Args {
+					args = append(args, x.operand(fc, a, callee.Signature.Params().At(k).Type()))
+				}
+				return x.callFunction(fc, st, i, callee, args)
+			}
+		}
+	}
 	// ast.Vertex.GetPosition: every node kind returns its Position field (checked by E-TRACE/C12 accept table)
-	if m.Name() == "GetPosition" && m.Pkg() != nil && m.Pkg().Path() == modPath+"/pkg/ast" {
+	if m.Name() == "GetPosition" && cc.Signature().Params().Len() == 0 {
 		x.Assumed["ast.Vertex.GetPosition returns the node's Position field (checked per kind by gram/getposition obligations)"] = true
-		h := x.heapGet(st, "F:ast.*.Position", SArrII)
+		h := x.heapGet(st, posKey, SArrII)
 		v := x.Sc.Define(i.Name(), tSelect(h, recv.Ref))
 		x.assumeWF(st, v, cc.Signature().Results().At(0).Type())
 		return v
@@ -510,6 +541,9 @@ func (x *Exec) execInvoke(fc *frameCtx, st *State, i *ssa.Call) Val {
 
 func (x *Exec) stdlibCall(fc *frameCtx, st *State, i *ssa.Call, callee *ssa.Function, args []Val) Val {
 	name := callee.String()
+	if callee.Name() == "init" && callee.Signature.Recv() == nil && callee.Signature.Params().Len() == 0 {
+		return nil // initialiser of an imported package: cannot reference this package's state
+	}
 	assume := func(desc string) { x.Assumed["stdlib "+name+": "+desc] = true }
 	switch name {
 	case "bytes.Equal":
